@@ -1,0 +1,21 @@
+//go:build verif
+
+package object
+
+// Verification-only accessors (state projections for /verif, properties C05 and C10).
+// Add-only: nothing here is referenced by the regular build.
+
+// VerifNumReg returns the number of integer registers currently allocated in this environment.
+func VerifNumReg(e *Environment) int {
+	return e.numReg
+}
+
+// VerifRegisters returns a copy of the register file of this environment.
+func VerifRegisters(e *Environment) [NumRegisters]int64 {
+	return e.registers
+}
+
+// VerifIsRoot tells whether this environment is a top level one (no outer scope).
+func VerifIsRoot(e *Environment) bool {
+	return e.outer == nil
+}
